@@ -1,15 +1,20 @@
-"""Run every translator; called at the start of every check."""
+"""Run every translator (each translate/<name>.py with a run() function); called at the start of every check."""
 from __future__ import annotations
 
 import importlib
+from pathlib import Path
 
-NAMES = ["status"]
+SKIP = {"__init__", "common", "run"}
 
 
 def run_all() -> dict:
     out = {}
-    for n in NAMES:
+    for f in sorted(Path(__file__).parent.glob("*.py")):
+        n = f.stem
+        if n in SKIP:
+            continue
         m = importlib.import_module(f"translate.{n}")
         importlib.reload(m)
-        out[n] = m.run()
+        if hasattr(m, "run"):
+            out[n] = m.run()
     return out
